@@ -33,15 +33,20 @@ REGISTRATION = {
             "planned on a GPU for all loaded models sum to at most its total memory); every clause "
             "is also evaluated on the real results (estimator alone, and estimator on the scheduler-adjusted list).",
     "design_ref": "DESIGN.md §5 C16",
-    "note": COMMON_NOTE + "Modelled, not verified: the quantities the estimator derives from the model file and "
-            "the environment (GraphSize formulas, tensor sizes, KV sizes incl. float64 arithmetic, projector "
-            "requirements, OLLAMA_GPU_OVERHEAD) enter the model as inputs; the driver recomputes them with the "
-            "same functions the estimator calls. Flash attention / KV cache type are off in the driver (they "
-            "only change those inputs). The allocation theorems hold under an explicit no-wrap-around guard on "
-            "the derived inputs; without it the clause is false of the code (finding W1, repaired in /repo by cdbdf6013, and the remaining wraps W2 for figures near 2^64).",
+    "note": COMMON_NOTE + "GGML.GraphSize (KV-cache figures incl. the float64 detour, the per-architecture graph formulas) "
+            "is inside the model (graphSize, tied exactly by the c16graph stream on all architectures of its switch, q8_0/q4_0 "
+            "cache types, wrapping products); the estimator stream still receives these figures from the real GraphSize. "
+            "Inputs of the model, recomputed by the driver with the functions the estimator calls: tensor / layer sizes "
+            "(GroupLayers, Tensor.Size), projector requirements, VisionGraphSize, OLLAMA_GPU_OVERHEAD. Flash attention is off "
+            "in the estimator driver (GPU discovery); the cache types are exercised on GraphSize directly. The allocation "
+            "theorems hold under an explicit no-wrap-around guard (noWrap_of_small_raw gives it from bounds on the raw "
+            "inputs); without it the clause is false of the code (finding W1, repaired in /repo by cdbdf6013, and the "
+            "remaining wraps W2 for figures near 2^64). The fit clause is proved for 'all REQUESTED layers'; as literally "
+            "stated it fails for a user limit 0 < num_gpu < blocks+1 (finding N1, by design of num_gpu). The load-path model "
+            "takes one snapshot of the loaded runners (the code reads s.loaded three times; only unloads can intervene).",
 }
 
-MODULES = ["OllamaVerif.Properties.C16"]
+MODULES = ["OllamaVerif.Properties.C16", "OllamaVerif.Tie.C16"]
 THEOREMS = [
     "OllamaVerif.C16.layers_le",
     "OllamaVerif.C16.split_sum",
@@ -80,10 +85,32 @@ THEOREMS = [
     # every reachable state of the load path (induction over the history of requests / load completions / unloads)
     "OllamaVerif.C16.history_within_total",
     "OllamaVerif.C16.history_from_empty",
+    # GGML.GraphSize inside the model
+    "OllamaVerif.C16.graphSize_kv_length",
+    "OllamaVerif.C16.kvBytes_exact",
+    "OllamaVerif.C16.layers_le_block_count",
+    # Tie 1: the estimator variant found in the tree (compile only while fix cdbdf6013 of finding W1 is in the tree)
+    "OllamaVerif.Tie.C16.tree_subtracts_overhead",
+    "OllamaVerif.Tie.C16.tree_alloc_le_free",
+    "OllamaVerif.Tie.C16.tree_W1_input_plans_nothing",
 ]
-# The code variant the model must mirror (0 = pinned overhead comparisons, 1 = with fix C16-W1) is detected
-# by the driver on every run by probing the real estimator with the W1 input; it is the first argument of
-# every oracle command and is reported as driver_stats code_variant_<n>.  VERIF_C16_VARIANT overrides.
+# The estimator variant of the tree (0 = pinned overhead comparisons, 1 = with fix C16-W1, which /repo has: finding W1 is
+# `fixed`) is probed on every run (TestVerifC16Probe: the real estimator on the W1 input) and written to
+# Generated/C16_Variant.lean, which Tie/C16.lean consumes by `decide`.  The drivers run the model at the EXPECTED variant (1):
+# a tree that lost the fix fails closed three ways: `fixed-finding-regressed` with the W1 witness input, lost Tie theorems,
+# and L1 / L2 (`alloc-exceeds-free … wraps=none`) failures with concrete inputs.  VERIF_C16_VARIANT / VERIF_C16_ONLY are
+# development aids, honoured only with VERIF_DEV=1, recorded in the evidence, and such a run never passes.
+EXPECTED_VARIANT = 1
+
+VARIANT_LEAN = """-- REGENERATED on every run by vlib/checks/c16.py from /repo's working tree (TestVerifC16Probe). Do not edit.
+namespace OllamaVerif.Generated.C16
+/-- does the estimator of the tree subtract OLLAMA_GPU_OVERHEAD from the free memory (true: fix cdbdf6013 of finding W1
+    is in the tree) or add it to the requirement (false: the sums wrap for an overhead near 2^64)?  Obtained by
+    executing the real `EstimateGPULayers` on the W1 input (overhead 2^64-1, one GPU with 1 GiB free). -/
+def overheadSubtracted : Bool := %s
+end OllamaVerif.Generated.C16
+"""
+
 # Branches of the model that the theorems talk about; every one must be exercised by the drivers on every
 # non-replay run (counters printed by the Go drivers into stats.txt), else the check fails closed with
 # `correspondence-coverage` (a generator that silently stops reaching a branch would leave the L1 tie vacuous there).
@@ -96,11 +123,15 @@ REQUIRED_BRANCHES = {
                  "gen_bisect_boundary", "ngpus_1", "ngpus_2", "ngpus_8",
                  "br_admit_reject", "br_admit_accept", "br_gzo_on_later_gpu", "br_output_placed", "br_output_not_placed",
                  "br_output_not_considered", "br_graph_full", "br_graph_partial",
-                 "br_gpu_dropped_midway", "br_cap_hit"],
+                 "br_gpu_dropped_midway", "br_cap_hit", "code_variant_1", "model_variant_1"],
     "sched": ["sched_some_lowered", "sched_some_zeroed", "sched_unchanged", "sched_compositions_with_layers",
               "sched_runners_0", "sched_runners_2"],
     "pick": ["pick_full_nil", "pick_full_single", "pick_full_multi", "pick_full_multi_reordered", "pick_full_p_1",
              "pick_full_p_4", "pick_partial_groups_1", "pick_partial_groups_2"],
+    "graph": ["graph_arch_llama", "graph_arch_mllama", "graph_arch_gemma", "graph_arch_gemma2", "graph_arch_gemma3",
+              "graph_arch_command-r", "graph_arch_qwen2", "graph_arch_phi2", "graph_arch_stablelm", "graph_arch_deepseek2",
+              "graph_arch_chatglm", "graph_arch_verifarch", "graph_kvct_q8_0", "graph_kvct_q4_0", "graph_kv_float_rounding",
+              "graph_wrap_likely"],
     "load": ["load_decision_full", "load_decision_partial", "load_decision_evict", "load_decision_delay",
              "load_on_lowered_free", "load_multi_gpu", "load_with_loading_runner", "load_runners_0", "load_runners_2",
              "load_p_1", "load_p_4", "load_forced_parallel_1"],
@@ -121,37 +152,70 @@ OVERLAY_SCHED = {"server/zz_verif_c16_test.go": "server/zz_verif_c16_test.go"}
 
 
 def run(ctx):
-    ctx.lean_check(MODULES, THEOREMS)
-    env = {"VERIF_N": ctx.scale(6000, 150000), "VERIF_C16_VARIANT": os.environ.get("VERIF_C16_VARIANT", ""),
+    dev = os.environ.get("VERIF_DEV") == "1"
+    only = os.environ.get("VERIF_C16_ONLY", "") if dev else ""      # development aid: run one driver only
+    pinned_variant = os.environ.get("VERIF_C16_VARIANT", "") if dev else ""
+    env = {"VERIF_N": ctx.scale(6000, 150000), "VERIF_C16_VARIANT": pinned_variant,
            "VERIF_C16_LITERAL": "1",      # also evaluate the fit clause as literally stated (finding N1); off inside C11's check
            "VERIF_CORPUS": os.path.join(core.ROOT, "corpus", "C16")}
+    # Tie 1: probe the estimator variant of the tree, regenerate the fact, then check the theorems (incl. Tie/C16.lean)
+    probed = None
+    if not ctx.replay:
+        rc, out, outdir = ctx.go_test("./llm/", OVERLAY, "^TestVerifC16Probe$", env=env, timeout=900)
+        pst = ctx.read_stats(outdir)
+        probed = 1 if pst.get("code_variant_1") else 0 if pst.get("code_variant_0") else None
+        if rc != 0 or probed is None:
+            ctx.violation("driver-failed", "", "variant probe: " + out[-1200:], no_input=True)
+        else:
+            core.write_generated("OllamaVerif/Generated/C16_Variant.lean", VARIANT_LEAN % ("true" if probed == 1 else "false"))
+            ctx.coverage["code_variant"] = "fixed (C16-W1 applied)" if probed == 1 else "pinned (fix of W1 LOST)"
+            if probed != EXPECTED_VARIANT:
+                w1 = open(os.path.join(core.ROOT, "corpus", "C16", "w1-overhead-wrap.json")).read().strip()
+                ctx.violation("fixed-finding-regressed", w1,
+                              "finding W1 (fixed by cdbdf6013) is back: the real EstimateGPULayers offloads layers for "
+                              "OLLAMA_GPU_OVERHEAD=2^64-1 on a GPU with 1 GiB free (the overhead is added to the requirement "
+                              "again, the uint64 sums wrap)")
+    ctx.lean_check(MODULES, THEOREMS)
     if ctx.replay:
         env["VERIF_REPLAY"] = ctx.replay_line_file()
-    sched_only = pick_only = load_only = False
+    sched_only = pick_only = load_only = graph_only = False
     if ctx.replay:
-        try:
-            raw = open(env["VERIF_REPLAY"]).read().replace(" ", "")
-            load_only = raw.startswith('{"kind":"load"')
-            sched_only = not load_only and '"kind":"sched"' in raw
-            pick_only = not load_only and '"kind":"pick"' in raw
-        except OSError:
-            pass
-    only = os.environ.get("VERIF_C16_ONLY", "")      # development aid: run one driver only
+        raw = open(env["VERIF_REPLAY"]).read().replace(" ", "")
+        load_only = raw.startswith('{"kind":"load"')
+        graph_only = raw.startswith('{"kind":"graph"')
+        sched_only = not load_only and not graph_only and '"kind":"sched"' in raw
+        pick_only = not load_only and not graph_only and '"kind":"pick"' in raw
     if only == "load":
         load_only = True
-    if not sched_only and not pick_only and not load_only:
+    if only == "graph":
+        graph_only = True
+    if only or pinned_variant:
+        ctx.coverage["development_switches"] = {"VERIF_C16_ONLY": only, "VERIF_C16_VARIANT": pinned_variant}
+        ctx.violation("development-run", "", "VERIF_DEV=1 with VERIF_C16_ONLY=%r VERIF_C16_VARIANT=%r: drivers skipped / model "
+                      "variant pinned; not a verdict about the tree" % (only, pinned_variant), no_input=True)
+    # GGML.GraphSize: the derived inputs kv[i] / partialOffload / fullOffload as a function of the model file
+    if not ctx.replay and only in ("", "graph") or graph_only:
+        envg = dict(env)
+        envg["VERIF_N"] = ctx.scale(3000, 60000)
+        rc, out, outdir = ctx.go_test("./llm/", OVERLAY, "^TestVerifC16Graph$", env=envg, timeout=1500)
+        if rc != 0:
+            ctx.violation("driver-failed", "", out[-1500:], no_input=True)
+        st = ctx.read_stats(outdir)
+        ctx.l1(outdir, label="L1-graph")
+        ctx.classify(ctx.l2(outdir))
+        if not ctx.replay:
+            coverage_gate(ctx, "graph", st)
+    if not sched_only and not pick_only and not load_only and not graph_only:
         rc, out, outdir = ctx.go_test("./llm/", OVERLAY, "^TestVerifC16$", env=env, timeout=1500)
         if rc != 0:
             ctx.violation("driver-failed", "", out[-1500:], no_input=True)
         st = ctx.read_stats(outdir)
-        ctx.coverage["code_variant"] = ("fixed (C16-W1 applied)" if st.get("code_variant_1") else
-                                        "pinned" if st.get("code_variant_0") else "undetected")
         ctx.l1(outdir)
         ctx.classify(ctx.l2(outdir))
         if not ctx.replay:
             coverage_gate(ctx, "estimate", st)
     # scheduler side: the real Scheduler.updateFreeSpace + composition with the real estimator
-    if (not ctx.replay or sched_only) and not pick_only and not load_only:
+    if (not ctx.replay or sched_only) and not pick_only and not load_only and not graph_only:
         env2 = dict(env)
         env2["VERIF_N"] = ctx.scale(4000, 60000)
         rc, out, outdir = ctx.go_test("./server/", OVERLAY_SCHED, "^TestVerifC16Sched$", env=env2, timeout=1500)
@@ -164,7 +228,7 @@ def run(ctx):
             coverage_gate(ctx, "sched", st)
     # scheduler's fit decisions: the real pickBestFullFitByLibrary / pickBestPartialFitByLibrary + the real
     # estimator on the returned list
-    if (not ctx.replay or pick_only) and not load_only:
+    if (not ctx.replay or pick_only) and not load_only and not graph_only:
         env3 = dict(env)
         env3["VERIF_N"] = ctx.scale(1500, 20000)
         rc, out, outdir = ctx.go_test("./server/", OVERLAY_SCHED, "^TestVerifC16Pick$", env=env3, timeout=1500)
@@ -176,7 +240,7 @@ def run(ctx):
         if not ctx.replay:
             coverage_gate(ctx, "pick", st)
     # the scheduler's load path: the real Scheduler.processPending (GPU branch) on histories of requests
-    if not ctx.replay or load_only:
+    if (not ctx.replay or load_only) and not graph_only:
         env4 = dict(env)
         env4["VERIF_N"] = ctx.scale(1200, 20000)
         rc, out, outdir = ctx.go_test("./server/", OVERLAY_SCHED, "^TestVerifC16Load$", env=env4, timeout=1500)
@@ -210,6 +274,9 @@ def run(ctx):
              "Load driver: histories of 2-8 requests on one scheduler state (inventories of 1-8 GPUs in four size modes "
              "relative to the model's need, reported free = total / fraction / accurate, runners loading or loaded, "
              "embedding / mllama models, parallel auto/1/2, spread, overhead), one case per scheduling attempt; "
+             "GraphSize driver: synthetic GGUFs of all 11 architectures of the switch + an unknown one (both mixtral branches, "
+             "cross-attention layers, rope_freqs, sliding window, attn_qkv.bias, head counts 0..64, optional key/value length) "
+             "x context / batch up to 2^64 (products beyond 2^53 and 2^64) x parallel x cache type f16/q8_0/q4_0/junk; "
              "distinct = distinct oracle command lines",
         explanation="Lean theorems about the executable model of EstimateGPULayers/PredictServerFit; model tied "
                     "to the code by exact comparison of the whole MemoryEstimate and fit result (L1) and every "
